@@ -54,9 +54,9 @@ def plan(ctx):
     MU = ["rsvand", "galois_stubbed", "gf16_ref", "ref_format", "xor_eq", "env"]
     if thorough:
         shapes = [(k, m) for k in range(1, 32) for m in range(1, 33 - k) if k + m <= 16 or m <= 4 or k <= 2]
-        shapes = [s for s in shapes if s[0] * (s[0] + s[1]) <= 320]
+        shapes = [s for s in shapes if s[0] * (s[0] + s[1]) <= 200]
     else:
-        shapes = [(1, 1), (2, 1), (1, 2), (2, 2), (3, 2), (4, 2), (5, 3), (10, 4), (8, 8), (31, 1), (1, 31), (12, 4)]
+        shapes = [(1, 1), (2, 1), (1, 2), (2, 2), (3, 2), (4, 2), (5, 3), (10, 4), (8, 8), (1, 31), (12, 4), (6, 26)]
     for k, m in shapes:
         n = k + m
         obs.append(Ob(id=f"matrix-{k}_{m}", harness="c04_matrix.c", defs=dict(K=k, M=m), units=MU, unwind=n + 3, timeout=1800, mem_gb=16 if k * n > 100 else 6,
@@ -68,11 +68,11 @@ def plan(ctx):
                       sample={"symbolic": "block size 0..10, 2x14 buffer bytes" + (", coefficient, xor flag" if mode == 2 else "")},
                       targets=["region_xor"] if mode == 1 else ["region_multiply"]))
     # encode words + MDS: every k-subset of rows decodes (exhaustive erasure sets of size exactly m)
-    mds = [(2, 1), (2, 2), (3, 2), (4, 2), (3, 3), (4, 3), (5, 3)] + ([(4, 4), (6, 3), (6, 4), (8, 4), (10, 2)] if thorough else [])
+    mds = [(2, 1), (2, 2), (3, 2), (4, 2)] + ([(3, 3), (4, 3), (5, 3), (4, 4), (6, 3), (6, 4), (8, 4), (10, 2)] if thorough else [])
     for k, m in mds:
         sets = list(esets(k + m, m, m))
-        for i, ch in enumerate(chunks(sets, 8)):
-            obs.append(be_l1_ob(RS, k, m, m, ch, w=(2 if k <= 2 else 1), tag="mds", idx=i, timeout=1500, mem=(12 if k >= 8 else 4)))
+        for i, ch in enumerate(chunks(sets, 3)):
+            obs.append(be_l1_ob(RS, k, m, m, ch, w=1, tag="mds", idx=i, timeout=1500, mem=(12 if k >= 8 else 4)))
     return {"obs": obs, "native": [native_k2],
             "assumptions": ["K1 proves the table algorithm at width 8 for every operand pair; the production-width table CONTENTS are covered by K2's exhaustive native comparison only",
                             "matrix harnesses execute the real construction concretely inside CBMC (GF contract), compared with the closed form computed by the model's own arithmetic",
